@@ -5,7 +5,7 @@ V = "/verif"
 confirm = {}
 for f in glob.glob("/verif/seeded/_confirm/confirm*.log"):
     for l in open(f):
-        m = re.match(r"(C\d+) (m\d): suite\(pass/fail\)=(\S+) demo_with_mutation_rc=(\S+) demo_without_rc=(\S+)", l)
+        m = re.match(r"(C\d+) (m\d+): suite\(pass/fail\)=(\S+) demo_with_mutation_rc=(\S+) demo_without_rc=(\S+)", l)
         if m:
             confirm["%s-%s" % (m.group(1), m.group(2))] = {"suite_pass_fail": m.group(3), "demo_rc_with_change": m.group(4), "demo_rc_without": m.group(5)}
 confirm.setdefault("C19-m1", {"suite_pass_fail": "255/0", "demo_rc_with_change": "1", "demo_rc_without": "0", "how": "bash run.sh in the scratch worktree"})
